@@ -281,7 +281,8 @@ package grpc
 // the transparency it decided), the stream is committed when it refused, and
 // the buffered operations are replayed on the new attempt.
 //@ func (*clientStream).retryLocked
-//@   prop C18
+//@   prop C18 C23
+//@   assert at call finish#1 arg0 == attempt
 //@   requires cs != nil
 //@   requires errContextDeadline != nil && isstatus(errContextDeadline) && errContextCanceled != nil && isstatus(errContextCanceled)
 //@   loop 1 invariant cs != nil && ncalls("shouldRetry") >= 0
@@ -401,3 +402,66 @@ package grpc
 //@   assert at call NewTimer#1 arg0 == backoffFor
 //@   assert at call updateConnectivityState#3 arg0 == ac && arg1 == connectivity.Idle && lastret("Err") == 0 && ncalls("Err") == 3
 //@   assert at return end ac.backoffIdx == 0 && lastret("tryAllAddrs") == 0
+
+// ---- C23 / C32: picks, their Done callbacks and the transports they return ------------------------------
+//
+// csAttempt.finish: the first call marks the attempt finished and then runs the
+// pick's Done callback at most once; any later call returns without doing
+// anything (a.mu protects the flag).
+
+//@ import balancer "google.golang.org/grpc/balancer"
+
+//@ monitor csAttempt.mu protects finished
+
+//@ func (*csAttempt).finish
+//@   prop C23
+//@   requires a != nil
+//@   assert at return 1 ncalls("Done") == 0 && ncalls("Close") == 0 && ncalls("HandleRPC") == 0
+//@   assert at call Close#1 a.finished && ncalls("Done") == 0
+//@   assert at call Done#1 ncalls("Done") == 0 && arg0.Err == err && implies(old(err) == io.EOF, arg0.Err == nil)
+//@   assert at return end ncalls("Done") <= 1
+
+// addrConn.getReadyTransport: a transport is returned only while the subchannel
+// is READY (under the subchannel's mutex).
+//@ monitor addrConn.mu protects state, transport
+//@ func (*addrConn).getReadyTransport
+//@   prop C32
+//@   ensures implies(result != nil, ac.state == connectivity.Ready && result == ac.transport)
+//@   ensures implies(ac.state != connectivity.Ready, result == nil)
+
+// pickerWrapper.pick. Every iteration loads the current picker generation afresh
+// and never calls Pick on a generation it has already used (it blocks on that
+// generation's channel instead, until a newer one is published or the context
+// ends). A transport is returned only as the non-nil result of
+// getReadyTransport on the picked subchannel; in that case pick itself does not
+// call Done (the attempt owns it); when the picked subchannel is not READY, pick
+// calls Done exactly once, with an empty DoneInfo, and goes around again.
+// ErrNoSubConnAvailable and non-status errors of wait-for-ready RPCs never end
+// the pick.
+//@ func (*pickerWrapper).pick
+//@   prop C23 C32
+//@   requires pw != nil
+//@   loop 1 invariant pw != nil
+//@   assert at call Pick#1 ch == pg.blockingCh && p == pg.picker && p != nil && recv == p
+//@   assert at call getReadyTransport#1 ok && arg0 == acbw.ac && ncalls("Done") == athead(ncalls("Done"))
+//@   assert at call Done#2 ncalls("Done") == athead(ncalls("Done")) && lastret("getReadyTransport") == 0
+//@   assert at call V#1 lastret("getReadyTransport") == 0
+//@   assert at call V#1 Z(ncalls("Done")) <= Z(athead(ncalls("Done"))) + 1
+//@   assert at return 1 pg == nil && result1 == ErrClientConnClosing
+//@   assert at return 6 result1 == nil
+//@   assert at return 6 lastret("getReadyTransport") != 0
+//@   assert at return 6 ncalls("Done") == athead(ncalls("Done"))
+//@   assert at return 4 lastret("Pick.err") != 0
+//@   assert at return 5 failfast && err != nil && err != balancer.ErrNoSubConnAvailable
+
+// Publishing a picker closes the previous generation's channel: every pick
+// blocked on it wakes up.
+//@ func (*pickerWrapper).updatePicker
+//@   prop C23 C32
+//@   requires pw != nil
+//@   assert at call close#1 arg0 == old.blockingCh && ncalls("Swap") == 1
+//@ func (*pickerWrapper).close
+//@   prop C23 C32
+//@   requires pw != nil
+//@   assert at call Swap#1 arg1 == nil
+//@   assert at call close#1 arg0 == old.blockingCh && ncalls("Swap") == 1
